@@ -390,6 +390,11 @@ Qed.
     i = 5 sets i = table[5] = 2 and m = 0 + 2 - table[2] = 2 (the standard algorithm: m = 3); the
     comparison resumes at corpus[4], everything matches, and 2 is returned although
     corpus[2..8) = A B A B A A. *)
+(** Reachability from kmpDeduplicate: not observed.  With an instrumented copy of the loop, every
+    position reported by the two kmpSearchAll calls was a true occurrence on all chains without equal
+    neighbours over 3 centres up to length 15 and 4 centres up to length 10, and on all chains (equal
+    neighbours allowed) over 2 centres up to length 16 and 3 centres up to length 10.  On rings
+    with at most two visits per point the search is provably exact (ProofsKmpNaive, ProofsKmpLe2). *)
 Definition occurs_at (corpus find : list pt) (m : Z) : bool :=
   ring_eqb (firstn (length find) (skipn (Z.to_nat m) corpus)) find.
 
